@@ -52,6 +52,7 @@ func c08side(c *Ctx) {
 		var wg sync.WaitGroup
 		start := make(chan struct{})
 		wantAttrs := map[string]string{}
+		wantWithID := map[string]string{} // attributes of the records that carry an id attribute
 		callerFn := "c08side"
 
 		switch sc {
@@ -84,7 +85,10 @@ func c08side(c *Ctx) {
 			l0.SetLevel(slog.AlwaysLevel)
 			sl := stdslog.New(h).With("zone", "eu", "svc", "x", "alpha", 1, "svc", "y")
 			sl2 := sl.With("tail", "t")
+			// one group value shared by all goroutines; it holds a zero Attr (log/slog asks handlers to ignore those)
+			sharedGroup := stdslog.Group("sg", stdslog.Int("a", 1), stdslog.Attr{}, stdslog.String("z", "Z"), stdslog.Attr{}, stdslog.Group("in", stdslog.Attr{}, stdslog.Int("q", 2)))
 			wantAttrs = map[string]string{"zone": "eu", "svc": "y", "alpha": "1"}
+			wantWithID = map[string]string{"sg.a": "1", "sg.z": "Z", "sg.in.q": "2"}
 			callerFn = "" // the adapter's records carry the program counter log/slog captured: not judged here
 			for g := 0; g < G; g++ {
 				g := g
@@ -96,7 +100,7 @@ func c08side(c *Ctx) {
 						id := fmt.Sprintf("g%dk%d;", g, k)
 						switch (g + k) % 4 {
 						case 0:
-							sl.Info("m-"+id, "id", id)
+							sl.Info("m-"+id, "id", id, sharedGroup)
 						case 1:
 							sl2.Warn("m-" + id) // no attributes of its own
 						default:
@@ -184,6 +188,14 @@ func c08side(c *Ctx) {
 			if v, ok := attrs["id"]; ok && v != id {
 				c.R.Violation(idx, "torn-or-corrupt", "C08/side/"+sc+"/foreign-attribute", fmt.Sprintf("record of call %s carries id=%q\npayload: %s", id, v, q(clip(string(e.Data), 900))), desc)
 				return
+			}
+			if _, ok := attrs["id"]; ok {
+				for k, v := range wantWithID {
+					if attrs[k] != v {
+						c.R.Violation(idx, "torn-or-corrupt", "C08/side/"+sc+"/shared-group", fmt.Sprintf("record of call %s: attribute %s=%q, the shared group value holds %q (attributes %v)\npayload: %s", id, k, attrs[k], v, briefAttrs(d.Attrs), q(clip(string(e.Data), 900))), desc)
+						return
+					}
+				}
 			}
 			for k, v := range wantAttrs {
 				if attrs[k] != v {
